@@ -33,7 +33,12 @@ case " $PROPS " in *" C02 "*)
 esac
 # C08 owns coq/Gen/LocalGrid1DGen.v (local 1D grid classes of sparseSpACE/Grid.py; theorems in Props/C08gen.v)
 case " $PROPS " in *" C08 "*)
-  /venv/bin/python "$ROOT/harness/translate/py2gallina_c08.py" 2> >(grep -v conda >&2) || echo "setup: translator rejected the source (coq/Gen/LocalGrid1DGen.v is a non-compiling stub)" >&2 ;;
+  /venv/bin/python "$ROOT/harness/translate/py2gallina_c08.py" 2> >(grep -v conda >&2) || echo "setup: translator rejected the source (coq/Gen/LocalGrid1DGen.v is a non-compiling stub)" >&2
+  [ -f "$ROOT/harness/translate/py2gallina_c08_area.py" ] && { /venv/bin/python "$ROOT/harness/translate/py2gallina_c08_area.py" 2> >(grep -v conda >&2) || echo "setup: translator rejected the source (coq/Gen/Grid1dAreaGen.v is a non-compiling stub)" >&2; } ;;
+esac
+# C06 (second generated file): container bookkeeping methods, object-machine front end, target container
+case " $PROPS " in *" C06 "*)
+  /venv/bin/python "$ROOT/harness/translate/py2gallina_machine.py" --target container 2> >(grep -v conda >&2) || echo "setup: translator rejected the source (coq/Gen/RefContainerMachineGen.v is a non-compiling stub)" >&2 ;;
 esac
 # C12: source-derived Function cache machine (same object-machine front end, target funcache)
 case " $PROPS " in *" C12 "*)
@@ -68,6 +73,14 @@ esac
 case " $PROPS " in *" C05 "*|*" C05gen "*)
   /venv/bin/python "$ROOT/harness/translate/py2gallina_c05.py" 2> >(grep -v conda >&2) || echo "setup: translator rejected the source (coq/Gen/AccumGen.v is a non-compiling stub)" >&2 ;;
 esac
+# C19 owns coq/Gen/ClassifyGen.v (Classification._classificate / _internal_scaling of sparseSpACE/DEMachineLearning.py; theorems in Props/C19gen.v)
+case " $PROPS " in *" C19 "*|*" C19gen "*)
+  /venv/bin/python "$ROOT/harness/translate/py2gallina_c19.py" 2> >(grep -v conda >&2) || echo "setup: translator rejected the source (coq/Gen/ClassifyGen.v is a non-compiling stub)" >&2 ;;
+esac
+# C20 owns coq/Gen/RegressGen.v (entry computation of Regression.build_C_matrix; theorems in Props/C20gen.v)
+case " $PROPS " in *" C20 "*)
+  /venv/bin/python "$ROOT/harness/translate/py2gallina_c20.py" 2> >(grep -v conda >&2) || echo "setup: translator rejected the source (coq/Gen/RegressGen.v is a non-compiling stub)" >&2 ;;
+esac
 cd "$ROOT/coq"
 find . -name '*.v' | sed 's|^\./||' | sort > .files.new
 if ! cmp -s .files.new .files || [ ! -f Makefile.coq ]; then
@@ -78,7 +91,7 @@ fi
 TARGETS=""
 for p in $PROPS; do
   [ -f Props/$p.v ] && TARGETS="$TARGETS Props/$p.vo"
-  [ -f Props/${p}gen.v ] && TARGETS="$TARGETS Props/${p}gen.vo"    # theorems about the source-derived model kept in a file of their own
+  for g in Props/${p}gen*.v; do [ -f "$g" ] && TARGETS="$TARGETS ${g%.v}.vo"; done    # theorems about the source-derived models kept in files of their own (Cxxgen.v, Cxxgen2.v, Cxxgendw.v)
   [ -f Entry/$p.v ] && TARGETS="$TARGETS Entry/$p.vo"
   [ -f Entry/${p}gen.v ] && TARGETS="$TARGETS Entry/${p}gen.vo"
 done
